@@ -320,6 +320,37 @@ func cmdAPI(args []string) {
 			sqlwrap.Ctl.Hook = nil
 			pegnet.VerifWrapDB = nil
 		}
+		// ---- schedule 5: no suspension at all - the read methods that use the averages are simply called between blocks
+		//      (after block h is committed, before h+1 arrives), for every asset. Reads may leave nothing behind.
+		{
+			r := newRunner("between")
+			for h := config.PegnetActivation + 1; h < cH; h++ {
+				r.Advance(h, 20*time.Second)
+			}
+			last := cH + 5
+			if last > s.Tip {
+				last = s.Tip
+			}
+			okAll := true
+			for h := cH; h <= last; h++ {
+				if res := r.Advance(h, 20*time.Second); !res.OK {
+					okAll = false
+					break
+				}
+				for _, t := range s.Assets {
+					r.Call("get-rich-list", map[string]interface{}{"asset": t, "count": 5}, nil)
+				}
+				r.Call("get-global-rich-list", map[string]interface{}{"count": 5}, nil)
+				r.Call("get-pegnet-rates", map[string]interface{}{"height": h}, nil)
+				r.Call("get-pegnet-issuance", nil, nil)
+			}
+			eq := okAll && finish(r, last)
+			emit(map[string]interface{}{"ev": "ApiExp", "schedule": "reads-between-blocks", "h": cH, "feasible": true,
+				"seen": 0, "committed": 0, "equal": eq})
+			r.StopAPI()
+			r.StopNode()
+			r.Srv.Stop()
+		}
 		node.VerifGate = nil
 	} else {
 		// ---- load: API clients hammer every read method while the chain is synced block by block
